@@ -21,6 +21,9 @@ pub struct FdCfgNs {
     /// member never satisfies: the failure detector's live/dead classification must not depend on it.
     #[serde(default)]
     pub predicate: bool,
+    /// Dead-node grace period of the observer (None: 400 days, i.e. never within a history).
+    #[serde(default)]
+    pub dead_grace_ns: Option<u64>,
 }
 
 impl FdCfgNs {
@@ -86,7 +89,7 @@ fn observer(cfg: &FdCfgNs, name: &str) -> Chitchat {
             cfg.window,
             Duration::from_nanos(cfg.max_interval_ns),
             Duration::from_nanos(cfg.initial_interval_ns),
-            Duration::from_secs(400 * 24 * 3600),
+            cfg.dead_grace_ns.map(Duration::from_nanos).unwrap_or(Duration::from_secs(400 * 24 * 3600)),
         ),
         marked_for_deletion_grace_period: Duration::from_secs(3600),
         catchup_callback: None,
@@ -375,7 +378,7 @@ fn exec_exact_tight(case: &AccCase, a_sel: u8, k: u8, tally: &mut Tally) -> Resu
         let a_ns: u64 = [250_000_000u64, 500_000_000, 1_000_000_000, 1_500_000_000, 2_000_000_000][a_sel as usize % 5];
         let k = (k % 4 + 1) as u64;
         let b_ns = a_ns * k;
-        let cfg = FdCfgNs { phi: k as f64, window: case.window, max_interval_ns: b_ns, initial_interval_ns: a_ns, predicate: case.window % 5 == 0 };
+        let cfg = FdCfgNs { phi: k as f64, window: case.window, max_interval_ns: b_ns, initial_interval_ns: a_ns, predicate: case.window % 5 == 0, dead_grace_ns: None };
         let xid = member().to_real();
         let mut node = observer(&cfg, "obs");
         let n = case.arrivals.len().clamp(4, 60) as u64;
@@ -416,7 +419,14 @@ pub fn exec_accuracy(case: &AccCase, tally: &mut Tally) -> Result<(), Failure> {
             tally.discard("phi outside [0.5, 16]");
             return Ok(());
         }
-        let cfg = FdCfgNs { phi, window: case.window, max_interval_ns: case.max_interval_ns, initial_interval_ns: initial, predicate: case.window % 5 == 0 };
+        let mut cfg = FdCfgNs { phi, window: case.window, max_interval_ns: case.max_interval_ns, initial_interval_ns: initial, predicate: case.window % 5 == 0, dead_grace_ns: None };
+        // Outages: an ordinary one is shorter than the dead-node grace period (4 x its length); a
+        // long one (every third window size) lasts beyond it with no evaluation until the steady
+        // schedule has delivered three heartbeats again - the member must then be live, not collected.
+        let silence = (cfg.deadline_ns() * 1.5) as u64 + cfg.max_interval_ns + 1_000;
+        let grace = silence.saturating_mul(4);
+        cfg.dead_grace_ns = Some(grace);
+        let long_outages = case.window % 3 == 0;
         let xid = member().to_real();
         let mut node = observer(&cfg, "obs");
         let mut hb = 0u64;
@@ -425,13 +435,18 @@ pub fn exec_accuracy(case: &AccCase, tally: &mut Tally) -> Result<(), Failure> {
         let gap_of = |pos: u16| -> u64 { a + (((b - a) as u128 * pos as u128) / 65_535) as u64 };
         let outage_at: std::collections::HashSet<usize> = if case.arrivals.len() > 2 { case.outages.iter().map(|o| 1 + (*o as usize % (case.arrivals.len() - 1))).collect() } else { Default::default() };
         let mut outages_done = 0u32;
+        let mut quiet_until_three = false;
         for (i, (pos, eval)) in case.arrivals.iter().enumerate() {
             if outage_at.contains(&i) {
                 // Silence beyond the deadline (and beyond max_interval), with an evaluation inside.
-                let silence = (cfg.deadline_ns() * 1.5) as u64 + cfg.max_interval_ns + 1_000;
                 advance_ns(silence).await;
                 if let Err(p) = guard(|| node.verif_update_nodes_liveness()) {
                     return vio(&format!("C11/{}", p.signature()), p.describe());
+                }
+                if long_outages {
+                    advance_ns(grace + 1_000).await;
+                    quiet_until_three = true;
+                    tally.label("outage_longer_than_the_dead_node_grace_period");
                 }
                 if classify(&node, &xid).0 && observations >= 1 {
                     // (completeness is C10's business; here it only matters that the outage is over)
@@ -448,7 +463,10 @@ pub fn exec_accuracy(case: &AccCase, tally: &mut Tally) -> Result<(), Failure> {
             let gap = if i == 0 { 0 } else { gap_of(*pos) };
             // evaluation placed inside the gap that precedes this arrival (after the previous one)
             let mut spent = 0u64;
-            if let (Some(e), true) = (eval, i > 0) {
+            if observations >= 3 {
+                quiet_until_three = false;
+            }
+            if let (Some(e), true, false) = (eval, i > 0, quiet_until_three) {
                 let at = ((gap as u128 * *e as u128) / 65_535) as u64;
                 advance_ns(at).await;
                 spent = at;
@@ -495,7 +513,7 @@ fn log_uniform_ns() -> impl Strategy<Value = u64> {
 
 fn cfg_strategy() -> impl Strategy<Value = FdCfgNs> {
     (5u32..=160, prop_oneof![2 => 1usize..=4, 2 => 5usize..=50, 1 => 51usize..=1000], log_uniform_ns(), log_uniform_ns(), proptest::bool::weighted(0.25))
-        .prop_map(|(phi10, window, max_interval_ns, initial_interval_ns, predicate)| FdCfgNs { phi: phi10 as f64 / 10.0, window, max_interval_ns, initial_interval_ns, predicate })
+        .prop_map(|(phi10, window, max_interval_ns, initial_interval_ns, predicate)| FdCfgNs { phi: phi10 as f64 / 10.0, window, max_interval_ns, initial_interval_ns, predicate, dead_grace_ns: None })
 }
 
 fn dt_strategy() -> impl Strategy<Value = Dt> {
